@@ -115,9 +115,10 @@ impl CertificateInfo {
         let days_until_expiry = match not_after.duration_since(now) {
             Ok(duration) => (duration.as_secs() / 86400) as i64,
             Err(_) => {
-                // Certificate has expired
+                // Certificate has expired: always negative, also within the first day after notAfter
+                // (whole days rounded up, at least 1), so that is_expired() is true from the first second
                 let duration = now.duration_since(not_after).unwrap();
-                -((duration.as_secs() / 86400) as i64)
+                -(duration.as_secs().div_ceil(86400).max(1) as i64)
             }
         };
 
